@@ -41,6 +41,7 @@ CALL_ACTS = [
     (r"^(?:control|self)\.model\.shift_base$", "shift"),
     (r"^diagnostic_info\.save_info_from_control$", "diag"),
     (r"^(?:control|self)\.geometry_step$", "geomstep"),
+    (r"^(?:control|self)\.model\.get_final_results$", "final"),
     (r"^(?:control|self)\.terminate_from_slow_iterations$", "slowtest"),
 ]
 
@@ -324,10 +325,7 @@ def collect():
         if isinstance(s, ast.Return):
             after.append("return:" + ast.unparse(s.value))
         elif isinstance(s, (ast.Assign, ast.Expr, ast.AugAssign)):
-            txt = ast.unparse(s)
-            if "get_final_results" in txt:
-                after.append("final")
-            after += stmt_acts(s)
+            after += stmt_acts(s)          # (`get_final_results` is the action "final")
     return prog, after
 
 
